@@ -16,7 +16,8 @@ def cfg(ttl_a, ttl_default):
     return (d, [GM.rule(b"A", b"A", ttl=ttl_a, help=b"ra"), GM.rule(b"G.*", b"G_$1", ttl=ttl_a, mmt=b"gauge", help=b"rg")])
 
 
-CFGS = {"c1": (2 * SEC, 5 * SEC), "c2": (10 * SEC, 0), "c3": (0, 1 * SEC), "c4": (0, 0)}
+HUGE = 9223369200 * SEC          # 2562047h, the longest duration the YAML can spell: last sample + ttl exceeds int64 nanoseconds
+CFGS = {"c1": (2 * SEC, 5 * SEC), "c2": (10 * SEC, HUGE), "c3": (0, 1 * SEC), "c4": (0, 0)}
 # 8-operation alphabet (+ reload variants); sA2 = another series (other label set) of A's family
 ALPHA = ["sA", "sB", "sAB", "adv1", "adv3", "sweep", "reload", "sA2"]
 # series of ONE family holding different ttls (immortal next to mortal, long next to short), in both creation orders
@@ -108,6 +109,10 @@ def monitor(rep, case, impl, model, payload):
 
 
 def run(rep, tier, seed, replay):
+    if replay and E2E.replay_case(rep, "C07", replay):
+        rep.cov.setdefault("trusted_base", ["end-to-end replay of one case against the built binary"])
+        rep.cov.setdefault("rule", "replay of one end-to-end case")
+        return
     import random
     depth = 4 if tier == "quick" else 6
     exhaustive = [gen_case_from(seq) for d in range(1, depth + 1) for seq in itertools.product(ALPHA, repeat=d)]
@@ -119,11 +124,14 @@ def run(rep, tier, seed, replay):
         return gen_case_from([rnd.choice(ALPHA) for _ in range(rnd.randint(7, 40))], start=rnd.choice(["c1", "c4", "c3"]))
     PC.run(rep, "C07", tier, seed, replay, gen, monitor, 300, 6000,
            "all %d histories of depth <= %d over the 8-operation alphabet {sample A, sample A with a tag (a second series of the same family), sample B (other name, labels), two samples "
-           "of A on one line, advance 1s, advance 3s, sweep, reload that changes the ttls (2s/5s -> 10s/0 -> 0/1s -> 0/0)}, directed histories in which one family holds immortal and mortal "
+           "of A on one line, advance 1s, advance 3s, sweep, reload that changes the ttls (2s/5s -> 10s/2562047h -> 0/1s -> 0/0)}, directed histories in which one family holds immortal and mortal "
            "series (8 runs each: map iteration order) + random histories of depth 7-40 (%%(n)d cases in total), scraped after every operation and compared "
            "with the property's own reading (last sample + its ttl, strict comparison at the sweep, recreation from zero); non-trivial = history in which a sweep removed a series; "
            "distinct by operation sequence" % (n_exh, depth), extra_cases=exhaustive)
     rep.cov["exhaustive"] = True
+    if not replay:
+        import genproof
+        genproof.mapper_atomicity(rep, "every sample is given the ttl configured at that moment, also while a reload is running")
     if not replay and len(rep.violations) < 5:
         # real time in the built binary: the exporter's own once-a-second sweep, ttl 3 s, with and without a refreshing sample
         E2E.run(rep, "C07", tier, seed, n_quick=8, n_thorough=96, gen=E2E.gen_ttl_case, key="e2e_ttl")
